@@ -24,6 +24,7 @@
  *   setname V s / setclass V s VSsetname / VSsetclass ('-' = empty string)             -> ok | fail
  *   getname V / getclass V     VSgetname / VSgetclass                          -> ok s | fail
  *   elts V                     VSelts                                          -> ok n | fail
+ *   fexist V a,b               VSfexist                                        -> ok (all exist) | fail
  *   sizeof V a,b               VSsizeof                                        -> ok n | fail
  *   field V idx                VFfieldtype/isize/esize/order/name              -> ok t is es ord name | fail
  *   nfields V                  VFnfields                                       -> ok n | fail
@@ -452,6 +453,19 @@ static void run_history(const char *dir, char **lines, long *lnos, long nlines)
             sscanf(line, "%*s %ld", &v);
             int32 r = VSelts(vid[v]);
             if (r == FAIL) printf("%ld fail\n", ln); else printf("%ld ok %d\n", ln, (int)r);
+        }
+        else if (!strcmp(op, "fexist")) {
+            sscanf(line, "%*s %ld %s", &v, s1);
+            VDATA *vs = tracing ? vs_of(vid[v]) : NULL;
+            if (vs && vs->wlist.n > 0) {
+                printf("MC %ld vsfexist %d:", ln, vs->wlist.n);
+                for (int j = 0; j < vs->wlist.n; j++) printf("%s%s", j ? "," : "", vs->wlist.name[j]);
+                printf(" %s\n", s1);
+            }
+            else vs = NULL;
+            int r = VSfexist(vid[v], s1);
+            if (vs) printf("MR %ld %d\n", ln, r);
+            printf(r == FAIL ? "%ld fail\n" : "%ld ok\n", ln);
         }
         else if (!strcmp(op, "sizeof")) {
             sscanf(line, "%*s %ld %s", &v, s1);
